@@ -33,6 +33,7 @@ fn main() {
         "query" => drivers::query::run(&args),
         "tickconf" => drivers::tickconf::run(&args),
         "actorconf" => drivers::actorconf::run(&args),
+        "adaptconf" => drivers::adaptconf::run(&args),
         "auth" => drivers::auth::run(&args),
         "lookup" => drivers::lookup::run(&args),
         "join" => drivers::join::run(&args),
